@@ -12,6 +12,9 @@ import (
 
 func init() {
 	floor := []string{"raise.row", "raise.none", "raise.cte", "followup", "reexec"}
+	for _, q := range c19NativeTypeErrors {
+		floor = append(floor, "typeerr.native."+q.name)
+	}
 	for _, n := range richFormNames(true) {
 		floor = append(floor, "pos."+n)
 	}
@@ -35,6 +38,7 @@ func init() {
 			{Name: "faults", N: func(t fw.Tier) int { return pick(t, 3000, 80000) }, Run: c19Faults},
 			{Name: "raise", N: func(t fw.Tier) int { return pick(t, 900, 25000) }, Run: c19Raise},
 			{Name: "typeerr", N: func(t fw.Tier) int { return pick(t, 1200, 25000) }, Run: c19TypeErr},
+			{Name: "typeerr-native", N: func(t fw.Tier) int { return pick(t, 600, 12000) }, Run: c19TypeErrNative},
 		},
 		Witness: sqlWitness,
 	})
@@ -270,4 +274,62 @@ func newSafe(doc map[string]any, sql string, opts ...genql.QueryOption) (q *genq
 		return nil, out
 	}
 	return q, out
+}
+
+
+// c19NativeTypeErrors: a number where a boolean, a string or an array is
+// required. The number arrives as a natively typed Go integer (a document
+// built in Go rather than decoded from JSON); it is a type error all the same.
+var c19NativeTypeErrors = []struct{ name, sql string }{
+	{"where.not", "SELECT s1 FROM t1 WHERE NOT rid"},
+	{"where.and", "SELECT x.s1 FROM t1 x WHERE x.rid AND x.n2 > -1000000"},
+	{"where.or", "SELECT s1 FROM t1 WHERE n2 < -1000000 OR rid"},
+	{"select.to_upper", "SELECT TO_UPPER(rid) AS label FROM t1"},
+	{"select.raise_when", "SELECT s1, RAISE_WHEN(rid, 'x') FROM t1"},
+	{"select.first", "SELECT FIRST(rid) AS f FROM t1"},
+	{"select.if", "SELECT IF(rid, 1, 2) AS v FROM t1"},
+	{"select.bang", "SELECT !(rid) AS v FROM t1"},
+	{"having.not", "SELECT rid, COUNT(*) AS c FROM t1 GROUP BY rid HAVING NOT rid"},
+	{"derived.not", "SELECT q.s1 FROM (SELECT s1 FROM t1 WHERE NOT rid) q"},
+	{"cte.not", "WITH live AS (SELECT s1 FROM t1 WHERE NOT rid) SELECT s1 FROM live"},
+	{"union.not", "SELECT s1 FROM t1 WHERE n2 > 1000000 UNION ALL SELECT s1 FROM t1 WHERE NOT rid"},
+	{"join.on", "SELECT x.s1 FROM t1 x JOIN u1 y ON x.n1 >= y.un1 AND x.rid"},
+	{"subquery.not", "SELECT s1, (SELECT e FROM arr WHERE NOT e) AS sub FROM t1"},
+}
+
+func c19TypeErrNative(c *fw.Case) {
+	q := c19NativeTypeErrors[c.Idx%len(c19NativeTypeErrors)]
+	var d *richDoc
+	for {
+		d = newRichDoc(c)
+		if len(d.t.Rows) > 0 && len(d.u.Rows) > 0 {
+			break
+		}
+	}
+	for _, r := range d.t.Rows {
+		if len(r["arr"].([]any)) == 0 {
+			r["arr"] = []any{map[string]any{"e": 1.0, "f": "p"}}
+		}
+	}
+	d.doc = DocOf(d.t, d.u)
+	// the natively typed document is built once; the run and the pristine
+	// follow-up get deep copies of it (copies keep the Go types)
+	nd := d.fresh()
+	nativize(c, nd["t1"].([]any), "rid")
+	for _, r := range nd["t1"].([]any) {
+		nativize(c, r.(map[string]any)["arr"].([]any), "e")
+	}
+	mk := func() map[string]any { return val.CopyMap(nd) }
+	used := mk()
+	o := Run(used, q.sql)
+	c.Feature("typeerr.native." + q.name)
+	c.Sample(map[string]any{"sql": q.sql, "error": fmt.Sprint(o.Err), "rid_type": fmt.Sprintf("%T", used["t1"].([]any)[0].(map[string]any)["rid"])})
+	det := map[string]any{"sql": q.sql, "doc": d.doc, "rid_type": fmt.Sprintf("%T", used["t1"].([]any)[0].(map[string]any)["rid"])}
+	if !mustFail(c, o, "type error over a natively typed integer in "+q.name, det) {
+		return
+	}
+	if !followUp(c, used, mk(), det) {
+		return
+	}
+	c.Nontrivial(q.sql + "|" + val.Canon(d.doc))
 }
